@@ -63,6 +63,43 @@ def _case(ctx, name):
     raise KeyError(name)
 
 
+class _hash_spy:
+    """Records calls of the builtin hash() made from teneva modules with an
+    argument that contains a str / bytes (their hash is salted per interpreter
+    process, so anything derived from it differs between runs)."""
+    def __init__(self):
+        self.salted = []
+
+    def __enter__(self):
+        import sys
+        import builtins
+
+        def contains_text(x):
+            if isinstance(x, (str, bytes)):
+                return True
+            if isinstance(x, (tuple, frozenset)):
+                return any(contains_text(e) for e in x)
+            return False
+
+        def spy(x):
+            if contains_text(x):
+                self.salted.append(repr(x)[:60])
+            return builtins.hash(x)
+        self.mods = [m for name, m in sys.modules.items() if name.startswith('teneva.') and m is not None]
+        self.saved = [(m, m.__dict__.get('hash', None)) for m in self.mods]
+        for m in self.mods:
+            m.__dict__['hash'] = spy
+        return self
+
+    def __exit__(self, *a):
+        for m, old in self.saved:
+            if old is None:
+                m.__dict__.pop('hash', None)
+            else:
+                m.__dict__['hash'] = old
+        return False
+
+
 def _history(ctx):
     """Unrelated library calls between two runs (must not influence them)."""
     teneva.rand([2, 2], 2, seed=99)
@@ -75,6 +112,9 @@ def _history(ctx):
 
 def h_seeded(ctx, name):
     call = _case(ctx, name)
+    with _hash_spy() as hs:
+        call(7)
+    ctx.claim('no_process_salted_hash_in_seeding', not hs.salted)
     if is_sym(ctx):
         from symtt.stubs_rng import StubGenerator, GlobalRNG
         n0 = len(ctx.rng_audit)
@@ -257,6 +297,26 @@ def h_concrete_seeded(ctx, case):
     elif case == 'sample_func':
         A = teneva.func_int(teneva.rand([4, 4], 1, seed=6))
         call = lambda: teneva.sample_func(A, seed=7)
+    elif case == 'sample_func_history':
+        # the same list object with other contents / equal tensors in other objects: only the
+        # values of the argument count, not its identity or what was passed before
+        A = teneva.func_int(teneva.rand([4, 4], 1, seed=6))
+        B = teneva.func_int(teneva.rand([4, 4], 1, seed=8))
+        want_a = teneva.sample_func([G.copy() for G in A], seed=7)
+        want_b = teneva.sample_func([G.copy() for G in B], seed=7)
+        L = [G.copy() for G in A]
+        got = [teneva.sample_func(L, seed=7)]
+        for k in range(len(L)):
+            L[k][...] = B[k]                     # cores edited in place
+        got.append(teneva.sample_func(L, seed=7))
+        L[0], L[1] = A[0].copy(), A[1].copy()    # cores replaced in the same list
+        got.append(teneva.sample_func(L, seed=7))
+        ok = np.array_equal(got[0], want_a) and np.array_equal(got[1], want_b) and np.array_equal(got[2], want_a)
+        for t in range(8):                       # temporaries (address reuse)
+            T_ = A if t % 2 == 0 else B
+            ok = ok and np.array_equal(teneva.sample_func([G.copy() for G in T_], seed=7), want_a if t % 2 == 0 else want_b)
+        ctx.claim('result_depends_on_argument_values_only', bool(ok))
+        return
     ctx.claim('same_seed_same_result_any_global_state', runs(call))
 
 
@@ -268,7 +328,7 @@ def instances(tier):
         out.append({'func': 'h_symbolic_seed', 'params': {'name': name}})
     out.append({'func': 'h_anova_history', 'params': {}})
     out.append({'func': 'h_restart_generator', 'params': {}, 'opts': {'symbolic_signs': False}})
-    for case in ('cross_act_0', 'cross_act_1', 'cross_act_2', 'cross_act_3', 'core_qr_rand', 'sample_func'):
+    for case in ('cross_act_0', 'cross_act_1', 'cross_act_2', 'cross_act_3', 'core_qr_rand', 'sample_func', 'sample_func_history'):
         out.append({'func': 'h_concrete_seeded', 'params': {'case': case}, 'opts': {'concrete_only': True}})
     for name in ['rand', 'rand_norm', 'rand_stab', 'sample', 'sample_lhs', 'sample_rand', 'sample_rand_poi',
                  'sample_tt', 'sample_square', 'sample_square_dup', 'anova']:
